@@ -153,7 +153,7 @@ class Ledger:
 
 _CURRENT_WORLD: "World | None" = None
 
-_HIDE = ("_jump_history",)
+_HIDE = ("_jump_history", "_inherited_keys")
 
 
 def _ctx_view(ctx: dict[str, Any]) -> dict[str, Any]:
@@ -165,6 +165,15 @@ class VTask(Task):
     restart exactly like a user task's configuration does."""
 
     def execute(self, stage: StageExecution) -> TaskResult:
+        w = _CURRENT_WORLD
+        assert w is not None
+        n0 = w.ledger.seq
+        res = self._execute(stage)
+        if w.ledger.seq == n0 + 1:
+            w.ledger.entries[-1]["out"] = dict(getattr(res, "outputs", None) or {})
+        return res
+
+    def _execute(self, stage: StageExecution) -> TaskResult:
         w = _CURRENT_WORLD
         assert w is not None
         tm = next((t for t in stage.tasks if t.status == WorkflowStatus.RUNNING), None)
